@@ -134,7 +134,10 @@ Definition three_entries : batch :=
 (* second Create of a batch with three entries and an offset: slice bounds out of range [6:5] *)
 Lemma unfixed_second_create_panics :
   exists b1, build unfixed_table three_entries = Ret true b1 /\ build unfixed_table b1 = Panic.
-Proof. eexists. split; vm_compute; reflexivity. Qed.
+Proof.
+  exists (match build unfixed_table three_entries with Ret _ b => b | _ => three_entries end).
+  split; vm_compute; reflexivity.
+Qed.
 
 (* entry 0 named OFFSET: the loop makes no progress *)
 Lemma unfixed_entry0_offset_hangs :
